@@ -58,6 +58,13 @@ func c06Gen(rng *rand.Rand, tier string) []Case {
 			Ops:        []string{fmt.Sprintf("conc %s %d %d %d", kind, 4+rng.Intn(5), 150+rng.Intn(150), rng.Int63())},
 			Nontrivial: true, Tags: []string{"concurrent-" + kind}})
 	}
+	// a single originator (nothing else moves the clock between its calls) against the injectors: what a refused
+	// call does to the clock is then visible to the next call
+	for i := 0; i < nConc/3+1; i++ {
+		out = append(out, Case{ID: fmt.Sprintf("solo%d", i),
+			Ops:        []string{fmt.Sprintf("conc q 1 %d %d", 80+rng.Intn(60), rng.Int63())},
+			Nontrivial: true, Tags: []string{"concurrent-single-originator"}})
+	}
 	return out
 }
 
@@ -131,6 +138,11 @@ func c06Exec(ops []string) []string {
 	}
 	return outs
 }
+
+var (
+	oversizeUE = make([]byte, 1<<12)
+	oversizeQ  = make([]byte, 1<<20)
+)
 
 func c06Conc(n *testNode, kind string, g, cnt int, seed int64) string {
 	del := n.Conf.MemberlistConfig.Delegate
@@ -207,6 +219,8 @@ func c06Conc(n *testNode, kind string, g, cnt int, seed int64) string {
 				lt := cur + uint64(rng.Intn(3))
 				if rng.Intn(4) == 0 {
 					lt = cur + uint64(rng.Intn(60))
+				} else if rng.Intn(3) == 0 && cur > 1 {
+					lt = cur - 1 // the time the latest local call took
 				}
 				if kind == "ue" {
 					del.NotifyMsg(encodeWire(msgUserEventType, &wireUserEvent{LTime: lt, Name: "in", Payload: []byte(strconv.FormatUint(lt, 10))}))
@@ -235,10 +249,20 @@ func c06Conc(n *testNode, kind string, g, cnt int, seed int64) string {
 				name := fmt.Sprintf("o%d-%d", t, i)
 				fl := floor.Load()
 				var err error
+				// every fifth call is refused for its size only after the message (and its Lamport time) has
+				// been built: a user event just inside the limit before encoding, a query with a large payload
+				var payload []byte
+				if i%5 == 4 {
+					if kind == "ue" {
+						payload = oversizeUE[:n.Conf.UserEventSizeLimit-len(name)-1]
+					} else {
+						payload = oversizeQ
+					}
+				}
 				if kind == "ue" {
-					err = n.S.UserEvent(name, nil, false)
+					err = n.S.UserEvent(name, payload, false)
 				} else {
-					_, err = n.S.Query(name, nil, &serf.QueryParam{Timeout: 20 * time.Millisecond})
+					_, err = n.S.Query(name, payload, &serf.QueryParam{Timeout: 20 * time.Millisecond})
 				}
 				if err == nil {
 					mu.Lock()
@@ -278,7 +302,7 @@ func init() {
 	register(&Prop{
 		ID: "C06",
 		Rule: "a real single Serf node: sequential mixes of UserEvent/Query calls and incoming user events/queries with growing times (differential against the model built from the extracted clock usage), " +
-			"plus free-running concurrent runs (4-8 goroutines × 150-300 UserEvent or Query calls, with an injector goroutine delivering incoming messages); non-trivial = the case contains an incoming message or is concurrent; distinct = distinct op sequence",
+			"plus free-running concurrent runs (4-8 goroutines × 150-300 UserEvent or Query calls, with three injector goroutines delivering incoming messages at, just below and ahead of the clock; every fifth call is refused for its size after its Lamport time was taken); non-trivial = the case contains an incoming message or is concurrent; distinct = distinct op sequence",
 		Gen:  c06Gen,
 		Exec: c06Exec,
 	})
